@@ -1,1 +1,365 @@
-(* placeholder: additions engine (C12), under construction *)
+(* C12: theorems about the builder model (Model/Builder.v) and its checker (Check/CheckBuild.v).
+   A. finish appends exactly one End; the declared locals expand to the requested list; add_local ids are consecutive.
+   B. the type stored at the function's type id is the requested signature (dedup soundness, any hash order).
+   C. one build appends exactly one function item whose id is the returned id; payloads and types persist.
+   D. D08: after a successful convert_local_fn_to_import every later finish_module panics.
+   E. emission: every function of the model's output is its stored payload.
+   F. reflection of [agree]. *)
+From Coq Require Import List Arith NArith ZArith Bool Lia.
+Import ListNotations.
+From Orca Require Import Util Flat Lowering Locals LocalsProofs Types TypesProofs Reindex CheckReidx Builder CheckBuild.
+Local Open Scope N_scope.
+
+(* ------------------------------------------------------------------------------------------ *)
+(* A. body and locals *)
+Theorem finish_appends_one_end (s : bstate) fp params results locs body name s' r :
+  bstep s (BBuild fp params results locs body name) = Ok (s', r) ->
+  exists p, plook (b_fpay s') fp = Some p /\ fp_body p = body ++ [end_tok] /\ fp_name p = name
+            /\ removelast (fp_body p) = body /\ last (fp_body p) (0, []) = end_tok.
+Proof.
+  cbn [bstep]. destruct (add_type _ _) as [tid ts']. destruct (step (b_m s) (AddLocal SF fp)) as [[m r']|]; [|discriminate].
+  intros H. inversion H; subst; clear H. cbn [b_fpay plook]. rewrite N.eqb_refl. eexists. split; [reflexivity|].
+  cbn [fp_body fp_name]. repeat split; [apply removelast_last | apply last_last].
+Qed.
+
+Theorem built_locals_exact (params locs : list N) :
+  expand (groups (built_locals params locs)) = locs
+  /\ nparams (built_locals params locs) = lenN params
+  /\ fst (add_seq locs (mkLocals (lenN params) 0 [])) = LocalsProofs.ids_from (lenN params) (length locs).
+Proof.
+  unfold built_locals. rewrite add_seq_expand, add_seq_nparams, add_seq_ids. cbn [groups expand nparams num_locals app].
+  rewrite N.add_0_r. repeat split.
+Qed.
+
+(* ------------------------------------------------------------------------------------------ *)
+(* B. the type table *)
+Definition tinv (s : bstate) : Prop := map_ok (ts_types (b_ts s)) (ts_map (b_ts s)).
+
+Lemma parse_types_ok base order : map_ok (ts_types (parse_types base order)) (ts_map (parse_types base order)).
+Proof. unfold parse_types. destruct (parse_groups base [] []) as [g t]. cbn [ts_types ts_map]. apply build_map_ok. Qed.
+Theorem base_tinv (c : bcase) : tinv (bbase c).
+Proof. unfold tinv, bbase, base_types. cbn [b_ts]. apply parse_types_ok. Qed.
+
+Lemma bstep_tinv s o s' r : tinv s -> bstep s o = Ok (s', r) -> tinv s'.
+Proof.
+  unfold tinv. intros Hi. destruct o; cbn [bstep].
+  - destruct (add_type _ _) as [tid ts'] eqn:E. destruct (step _ _) as [[m r']|]; [|discriminate].
+    intros H. inversion H; subst; clear H. cbn [b_ts].
+    replace ts' with (snd (add_type (func_type params results) (b_ts s))) by (rewrite E; reflexivity).
+    apply add_type_map_ok. exact Hi.
+  - destruct (step _ _) as [[m r']|]; [|discriminate]. intros H. inversion H; subst. exact Hi.
+  - destruct (step _ _) as [[m r']|]; [|discriminate]. intros H. inversion H; subst. exact Hi.
+  - destruct (step _ _) as [[m r']|]; [|discriminate]. intros H. inversion H; subst. exact Hi.
+Qed.
+Lemma bstep_types_grow s o s' r : bstep s o = Ok (s', r) ->
+  forall i t, nth_error (ts_types (b_ts s)) i = Some t -> nth_error (ts_types (b_ts s')) i = Some t.
+Proof.
+  destruct o; cbn [bstep].
+  - destruct (add_type _ _) as [tid ts'] eqn:E. destruct (step _ _) as [[m r']|]; [|discriminate].
+    intros H. inversion H; subst; clear H. cbn [b_ts].
+    replace ts' with (snd (add_type (func_type params results) (b_ts s))) by (rewrite E; reflexivity).
+    destruct (add_type_preserves (func_type params results) (b_ts s)) as (_ & _ & _ & _ & _ & _ & P). exact P.
+  - destruct (step _ _) as [[m r']|]; [|discriminate]. intros H. inversion H; subst. auto.
+  - destruct (step _ _) as [[m r']|]; [|discriminate]. intros H. inversion H; subst. auto.
+  - destruct (step _ _) as [[m r']|]; [|discriminate]. intros H. inversion H; subst. auto.
+Qed.
+
+(* ------------------------------------------------------------------------------------------ *)
+(* C. one build *)
+Theorem build_step_exact s fp params results locs body name s' r :
+  tinv s -> bstep s (BBuild fp params results locs body name) = Ok (s', r) ->
+  (* exactly one function item is appended; its stored id is its position and is the returned id *)
+  s_items (m_f (b_m s')) = s_items (m_f (b_m s)) ++ [mkItem (lenN (s_items (m_f (b_m s)))) None false fp]
+  /\ r = Some (lenN (s_items (m_f (b_m s))))
+  /\ m_imports (b_m s') = m_imports (b_m s)
+  (* the payload: requested signature at the type id, the requested locals, the built sequence and one end, the name *)
+  /\ exists p, b_fpay s' = (fp, p) :: b_fpay s
+       /\ nth_error (ts_types (b_ts s')) (N.to_nat (fp_tid p)) = Some (mkT 0 params results None true false)
+       /\ expand (fp_groups p) = locs
+       /\ fp_body p = body ++ [end_tok]
+       /\ fp_name p = name.
+Proof.
+  intros Hi. cbn [bstep]. destruct (add_type _ _) as [tid ts'] eqn:E. cbn [step].
+  destruct (N.eqb _ _); [|discriminate]. intros H. inversion H; subst; clear H. cbn.
+  repeat split. eexists. split; [reflexivity|]. cbn [fp_tid fp_groups fp_body fp_name].
+  repeat split.
+  - pose proof (add_type_sound (func_type params results) (b_ts s) Hi) as S. rewrite E in S. cbn [fst snd] in S. exact S.
+  - apply built_locals_exact.
+Qed.
+
+Definition fp_of (o : bop) : option N := match o with BBuild fp _ _ _ _ _ => Some fp | _ => None end.
+Lemma bstep_payload_persists s o s' r fp :
+  bstep s o = Ok (s', r) -> fp_of o <> Some fp -> plook (b_fpay s') fp = plook (b_fpay s) fp.
+Proof.
+  destruct o; cbn [bstep fp_of].
+  - destruct (add_type _ _) as [tid ts']. destruct (step _ _) as [[m r']|]; [|discriminate].
+    intros H Hne. inversion H; subst; clear H. cbn [b_fpay plook].
+    destruct (N.eqb_spec fp fp0) as [->|_]; [exfalso; apply Hne; reflexivity | reflexivity].
+  - destruct (step _ _) as [[m r']|]; [|discriminate]. intros H _. inversion H; subst. reflexivity.
+  - destruct (step _ _) as [[m r']|]; [|discriminate]. intros H _. inversion H; subst. reflexivity.
+  - destruct (step _ _) as [[m r']|]; [|discriminate]. intros H _. inversion H; subst. reflexivity.
+Qed.
+(* over the rest of any history that does not reuse the fingerprint: the payload and its type stay what was built *)
+Theorem built_payload_persists : forall h s rets s' rets' fp p ty,
+  brun s h rets = (s', rets', false) ->
+  (forall o, In o h -> fp_of o <> Some fp) ->
+  plook (b_fpay s) fp = Some p -> nth_error (ts_types (b_ts s)) (N.to_nat (fp_tid p)) = Some ty ->
+  plook (b_fpay s') fp = Some p /\ nth_error (ts_types (b_ts s')) (N.to_nat (fp_tid p)) = Some ty.
+Proof.
+  induction h as [|o h IH]; intros s rets s' rets' fp p ty H Hf Hp Ht; cbn [brun] in H.
+  - inversion H; subst. split; assumption.
+  - destruct (bstep s o) as [[s1 r]|] eqn:E; [|inversion H].
+    eapply IH; [exact H | intros o' Ho'; apply Hf; right; exact Ho' | |].
+    + rewrite (bstep_payload_persists _ _ _ _ fp E (Hf o (or_introl eq_refl))). exact Hp.
+    + eapply bstep_types_grow; eassumption.
+Qed.
+
+(* ------------------------------------------------------------------------------------------ *)
+(* D. D08 *)
+(* how far functions.len() is behind num_local_functions + imports.num_funcs *)
+Definition behind (m : mst) (k : N) : Prop := lenN (s_items (m_f m)) + k = s_nlocal (m_f m) + s_num (m_f m).
+
+Lemma lenN_app {A} (l : list A) x : lenN (l ++ [x]) = lenN l + 1.
+Proof. unfold lenN. rewrite app_length. cbn. lia. Qed.
+Lemma lenN_updN {A} (f : A -> A) n (l : list A) : lenN (updN n f l) = lenN l.
+Proof.
+  unfold lenN, updN. f_equal. generalize (N.to_nat n) as k. intros k. revert l.
+  induction k as [|k IH]; intros [|a l]; cbn; try reflexivity. rewrite IH. reflexivity.
+Qed.
+
+(* finish_module succeeds exactly on a balanced module *)
+Theorem build_needs_balance m fp : (exists r, step m (AddLocal SF fp) = Ok r) <-> behind m 0.
+Proof.
+  unfold behind. cbn [step]. rewrite lenN_app. cbn [s_nlocal s_num s_items].
+  destruct (N.eqb_spec (lenN (s_items (m_f m)) + 1) (s_nlocal (m_f m) + 1 + s_num (m_f m))) as [E|E].
+  - split; [intros _; lia | intros _; eexists; reflexivity].
+  - split; [intros [r H]; discriminate | intros H; exfalso; apply E; lia].
+Qed.
+Theorem unbalanced_build_panics m fp k : behind m k -> 0 < k -> step m (AddLocal SF fp) = Panic 2.
+Proof.
+  unfold behind. intros H Hk. cbn [step]. rewrite lenN_app. cbn [s_nlocal s_num s_items].
+  destruct (N.eqb_spec (lenN (s_items (m_f m)) + 1) (s_nlocal (m_f m) + 1 + s_num (m_f m))) as [E|E]; [lia|reflexivity].
+Qed.
+
+Lemma delete_in_f m id m' : delete_in m SF id = Ok m' ->
+  lenN (s_items (m_f m')) = lenN (s_items (m_f m)) /\ s_nlocal (m_f m') = s_nlocal (m_f m) /\ s_num (m_f m') = s_num (m_f m).
+Proof.
+  unfold delete_in. cbn [get_sp set_sp].
+  set (items' := if id <? lenN (s_items (m_f m)) then updN id (set_del true) (s_items (m_f m)) else s_items (m_f m)).
+  assert (L : lenN items' = lenN (s_items (m_f m))) by (unfold items'; destruct (id <? _); [apply lenN_updN|reflexivity]).
+  destruct (nthN items' id) as [it|]; [|discriminate]. destruct (it_imp it); intros H; inversion H; subst; cbn; repeat split; exact L.
+Qed.
+
+(* every API call other than a successful conversion keeps the distance; a successful conversion increases it by one *)
+Lemma step_behind m o m' r k : behind m k -> step m o = Ok (m', r) ->
+  match o with
+  | AddLocal SF _ | AddImport SF _ | Delete SF _ => behind m' k
+  | LocalToImport id _ => match nthN (s_items (m_f m)) id with
+                          | Some it => if is_import it then behind m' k else behind m' (k + 1)
+                          | None => True
+                          end
+  | _ => True
+  end.
+Proof.
+  unfold behind. intros Hb. destruct o as [[]|[]|[]| | | | | |]; cbn [step]; try (intros; exact I).
+  - destruct (N.eqb _ _); [|discriminate]. intros H. inversion H; subst; clear H. cbn. rewrite lenN_app. lia.
+  - unfold push_import. cbn. destruct (N.eqb _ _); [|discriminate]. intros H. inversion H; subst; clear H. cbn. rewrite lenN_app. lia.
+  - destruct (delete_in m SF id) as [m1|] eqn:E; [|discriminate]. intros H. inversion H; subst; clear H.
+    destruct (delete_in_f _ _ _ E) as (A & B & C). rewrite A, B, C. exact Hb.
+  - destruct (nthN (s_items (m_f m)) id) as [it|]; [|discriminate].
+    destruct (is_import it).
+    + intros H. inversion H; subst. exact Hb.
+    + destruct (delete_in m SF id) as [m1|] eqn:E; [|discriminate]. unfold push_import. cbn. intros H. inversion H; subst; clear H.
+      destruct (delete_in_f _ _ _ E) as (A & B & C). cbn. rewrite lenN_updN, A, B, C. lia.
+Qed.
+
+Lemma bstep_behind s o s' r k : behind (b_m s) k -> 0 < k -> bstep s o = Ok (s', r) -> exists k', behind (b_m s') k' /\ 0 < k'.
+Proof.
+  intros Hb Hk. destruct o; cbn [bstep].
+  - destruct (add_type _ _). rewrite (unbalanced_build_panics _ fp k Hb Hk). discriminate.
+  - destruct (step (b_m s) (AddImport SF fp)) as [[m r']|] eqn:E; [|discriminate]. intros H. inversion H; subst. cbn.
+    exists k. split; [exact (step_behind _ _ _ _ _ Hb E)|exact Hk].
+  - destruct (step (b_m s) (Delete SF id)) as [[m r']|] eqn:E; [|discriminate]. intros H. inversion H; subst. cbn.
+    exists k. split; [exact (step_behind _ _ _ _ _ Hb E)|exact Hk].
+  - destruct (step (b_m s) (LocalToImport id fp)) as [[m r']|] eqn:E; [|discriminate]. intros H. inversion H; subst. cbn.
+    pose proof (step_behind _ _ _ _ _ Hb E) as P. cbn in P.
+    destruct (nthN (s_items (m_f (b_m s))) id) as [it|] eqn:En.
+    + destruct (is_import it); [exists k | exists (k + 1)]; split; try exact P; lia.
+    + cbn [step] in E. rewrite En in E. discriminate.
+Qed.
+Lemma brun_behind : forall h s rets s' rets' k, behind (b_m s) k -> 0 < k -> brun s h rets = (s', rets', false) ->
+  exists k', behind (b_m s') k' /\ 0 < k'.
+Proof.
+  induction h as [|o h IH]; intros s rets s' rets' k Hb Hk H; cbn [brun] in H.
+  - inversion H; subst. exists k. split; assumption.
+  - destruct (bstep s o) as [[s1 r]|] eqn:E; [|inversion H].
+    destruct (bstep_behind _ _ _ _ _ Hb Hk E) as (k1 & Hb1 & Hk1). eapply IH; eassumption.
+Qed.
+
+(* D08, stated on the model: on a balanced module (every parsed module is), once convert_local_fn_to_import has
+   converted a local function, every finish_module that follows -- after any further calls -- panics *)
+Theorem D08_build_panics_after_conversion s id fpi it s1 r h rets s2 rets2 fp params results locs body name :
+  behind (b_m s) 0 ->
+  nthN (s_items (m_f (b_m s))) id = Some it -> is_local it = true ->
+  bstep s (BLocalToImport id fpi) = Ok (s1, r) ->
+  brun s1 h rets = (s2, rets2, false) ->
+  bstep s2 (BBuild fp params results locs body name) = Panic 2.
+Proof.
+  intros Hb Hn Hl H1 Hrun. cbn [bstep] in H1.
+  destruct (step (b_m s) (LocalToImport id fpi)) as [[m r']|] eqn:E; [|discriminate]. inversion H1; subst; clear H1.
+  pose proof (step_behind _ _ _ _ _ Hb E) as P. cbn in P. rewrite Hn in P. unfold is_import in P. rewrite Hl in P. cbn in P.
+  destruct (brun_behind _ _ _ _ _ 1 P ltac:(lia) Hrun) as (k' & Hb' & Hk').
+  cbn [bstep]. destruct (add_type _ _). rewrite (unbalanced_build_panics _ fp k' Hb' Hk'). reflexivity.
+Qed.
+
+(* the base module of every case is balanced *)
+Lemma imp_items_len : forall l code pos k, lenN (imp_items code pos k l) = lenN (filter (fun x => N.eqb (fst x) code) l).
+Proof.
+  induction l as [|[c fp] l IH]; intros code pos k; cbn [imp_items filter fst]; [reflexivity|].
+  destruct (N.eqb c code); [|apply IH]. unfold lenN in *. cbn [length]. rewrite !Nat2N.inj_succ. f_equal. apply IH.
+Qed.
+Lemma loc_items_len : forall l pos, lenN (loc_items pos l) = lenN l.
+Proof. induction l as [|fp l IH]; intros pos; cbn [loc_items]; [reflexivity|]. unfold lenN in *. cbn [length]. rewrite !Nat2N.inj_succ. f_equal. apply IH. Qed.
+Theorem base_balanced (c : bcase) : behind (b_m (bbase c)) 0.
+Proof.
+  unfold behind, bbase, mk_base, mk_space. cbn [b_m m_f s_items s_nlocal s_num].
+  unfold lenN at 1. rewrite app_length, Nat2N.inj_add. fold (lenN (imp_items 0 0 0 (b_imports (to_rcase c)))).
+  fold (lenN (loc_items (lenN (imp_items 0 0 0 (b_imports (to_rcase c)))) (b_funcs (to_rcase c)))).
+  rewrite loc_items_len. lia.
+Qed.
+
+(* ------------------------------------------------------------------------------------------ *)
+(* E. emission *)
+Lemma rmapb_length {A B} (f : A -> res B) : forall l r, rmapb f l = Ok r -> length r = length l.
+Proof.
+  induction l as [|x l IH]; cbn [rmapb]; intros r H; [inversion H; reflexivity|].
+  destruct (f x); [|discriminate]. destruct (rmapb f l); [|discriminate]. inversion H. cbn. f_equal. apply IH. reflexivity.
+Qed.
+Lemma rmapb_nth {A B} (f : A -> res B) : forall l r k x, rmapb f l = Ok r -> nth_error l k = Some x ->
+  exists y, nth_error r k = Some y /\ f x = Ok y.
+Proof.
+  induction l as [|a l IH]; intros r k x H Hn; [destruct k; discriminate|].
+  cbn [rmapb] in H. destruct (f a) eqn:Ea; [|discriminate]. destruct (rmapb f l) eqn:El; [|discriminate]. inversion H; subst r.
+  destruct k as [|k]; cbn in Hn |- *.
+  - inversion Hn; subst. eexists. split; [reflexivity|exact Ea].
+  - eapply IH; [reflexivity|exact Hn].
+Qed.
+Lemma numberN_nth {A} : forall (l : list A) n k x, nth_error l k = Some x -> nth_error (numberN n l) k = Some (n + N.of_nat k, x).
+Proof.
+  induction l as [|a l IH]; intros n k x H; [destruct k; discriminate|].
+  destruct k as [|k]; cbn in H |- *.
+  - inversion H; subst. rewrite N.add_0_r. reflexivity.
+  - rewrite (IH (n + 1) k x H). f_equal. f_equal. lia.
+Qed.
+Lemma numberN_length {A} : forall (l : list A) n, length (numberN n l) = length l.
+Proof. induction l; intros n; cbn; [reflexivity|]. rewrite IHl. reflexivity. Qed.
+
+(* the function and code sections of the output: one entry per live local item of the index space, in order, each
+   with the signature stored at its type id, its stored local groups and its stored body *)
+Theorem function_section_exact s sites o :
+  bencode s sites = Ok o ->
+  exists lf mf, index_space (m_f (b_m s)) = Ok (lf, mf) /\
+  let live := map snd (filter (fun ki => is_local (snd ki) && negb (it_del (snd ki))) (number_items 0 lf)) in
+  length (bo_funcs o) = length live /\
+  forall k it, nth_error live k = Some it ->
+    exists p ty nm, plook (b_fpay s) (it_fp it) = Some p
+      /\ nth_error (ts_types (b_ts s)) (N.to_nat (fp_tid p)) = Some ty
+      /\ nth_error (bo_funcs o) k = Some (mkFO (it_fp it) (t_xs ty) (t_ys ty) (fp_groups p) (fp_body p) nm).
+Proof.
+  unfold bencode. destruct (index_space (m_f (b_m s))) as [[lf mf]|]; [|discriminate].
+  destruct (rmapb (emit_func s _ _) _) as [fs|] eqn:F; [|discriminate].
+  destruct (rmapb (emit_site mf) _) as [ss|]; [|discriminate].
+  intros H. inversion H; subst; clear H. cbn [bo_funcs]. exists lf, mf. split; [reflexivity|]. cbn zeta.
+  split; [rewrite (rmapb_length _ _ _ F), numberN_length; reflexivity|].
+  intros k it Hn. destruct (rmapb_nth _ _ _ _ _ F (numberN_nth _ 0 _ _ Hn)) as (y & Hy & Ey).
+  unfold emit_func in Ey. destruct (plook (b_fpay s) (it_fp it)) as [p|]; [|discriminate].
+  destruct (nth_error (ts_types (b_ts s)) (N.to_nat (fp_tid p))) as [ty|]; [|discriminate]. inversion Ey; subst.
+  eexists p, ty, _. repeat split. exact Hy.
+Qed.
+
+(* end to end on the model, for every history: a function built at any point of a history that does not reuse its
+   fingerprint is emitted -- wherever the index space puts it -- with exactly the requested parameter and result types,
+   local groups that expand to the requested locals, and the built sequence followed by one end *)
+Theorem built_function_emitted s fp params results locs body name s1 r h rets s2 rets2 sites o :
+  tinv s -> bstep s (BBuild fp params results locs body name) = Ok (s1, r) ->
+  brun s1 h rets = (s2, rets2, false) -> (forall x, In x h -> fp_of x <> Some fp) ->
+  bencode s2 sites = Ok o ->
+  exists lf mf, index_space (m_f (b_m s2)) = Ok (lf, mf) /\
+  forall k it, nth_error (map snd (filter (fun ki => is_local (snd ki) && negb (it_del (snd ki))) (number_items 0 lf))) k = Some it ->
+    it_fp it = fp ->
+    exists g nm, nth_error (bo_funcs o) k = Some (mkFO fp params results g (body ++ [end_tok]) nm) /\ expand g = locs.
+Proof.
+  intros Hi Hb Hrun Hfresh Henc.
+  destruct (build_step_exact _ _ _ _ _ _ _ _ _ Hi Hb) as (_ & _ & _ & p & Hpay & Hty & Hg & Hbody & _).
+  assert (Hp1 : plook (b_fpay s1) fp = Some p) by (rewrite Hpay; cbn [plook]; rewrite N.eqb_refl; reflexivity).
+  destruct (built_payload_persists _ _ _ _ _ _ _ _ Hrun Hfresh Hp1 Hty) as (Hp2 & Hty2).
+  destruct (function_section_exact _ _ _ Henc) as (lf & mf & Hix & _ & Hall).
+  exists lf, mf. split; [exact Hix|]. intros k it Hn Hfp.
+  destruct (Hall k it Hn) as (p' & ty' & nm & Hp' & Hty' & Ho). rewrite Hfp in Hp', Ho. rewrite Hp2 in Hp'. inversion Hp'; subst p'.
+  rewrite Hty2 in Hty'. inversion Hty'; subst ty'. cbn [t_xs t_ys] in Ho. rewrite Hbody in Ho.
+  exists (fp_groups p), nm. split; [exact Ho|exact Hg].
+Qed.
+
+(* ------------------------------------------------------------------------------------------ *)
+(* F. reflection *)
+Lemma leqb_eq {A} (e : A -> A -> bool) : (forall a b, e a b = true -> a = b) -> forall l l', leqb e l l' = true -> l = l'.
+Proof.
+  intros He. induction l as [|a l IH]; intros [|b l'] H; cbn in H; try discriminate; [reflexivity|].
+  apply andb_true_iff in H as [H1 H2]. f_equal; [apply He; exact H1 | apply IH; exact H2].
+Qed.
+Lemma Neqb_eq a b : N.eqb a b = true -> a = b. Proof. apply N.eqb_eq. Qed.
+Lemma Zeqb_eq a b : Z.eqb a b = true -> a = b. Proof. apply Z.eqb_eq. Qed.
+Lemma pair_eqb_eq a b : pair_eqb a b = true -> a = b.
+Proof.
+  destruct a, b. unfold pair_eqb. cbn. intros H. apply andb_true_iff in H as [H1 H2].
+  apply N.eqb_eq in H1. apply N.eqb_eq in H2. subst. reflexivity.
+Qed.
+Lemma tok_eqb_eq a b : tok_eqb a b = true -> a = b.
+Proof.
+  destruct a, b. unfold tok_eqb. cbn. intros H. apply andb_true_iff in H as [H1 H2].
+  apply N.eqb_eq in H1. apply (leqb_eq _ Zeqb_eq) in H2. subst. reflexivity.
+Qed.
+Lemma optn_eqb_eq a b : optn_eqb a b = true -> a = b.
+Proof. destruct a, b; cbn; intros H; try discriminate; [apply N.eqb_eq in H; subst|]; reflexivity. Qed.
+Lemma fobs_eqb_eq a b : fobs_eqb a b = true -> a = b.
+Proof.
+  destruct a, b. unfold fobs_eqb. cbn. intros H.
+  repeat match type of H with (_ && _) = true => let H' := fresh "H" in apply andb_true_iff in H as [H H'] end.
+  apply N.eqb_eq in H. apply (leqb_eq _ Neqb_eq) in H4. apply (leqb_eq _ Neqb_eq) in H3. apply (leqb_eq _ pair_eqb_eq) in H2.
+  apply (leqb_eq _ tok_eqb_eq) in H1. apply optn_eqb_eq in H0. subst. reflexivity.
+Qed.
+Lemma bobs_eqb_eq a b : bobs_eqb a b = true -> a = b.
+Proof.
+  destruct a, b. unfold bobs_eqb. cbn. intros H. apply andb_true_iff in H as [H H3]. apply andb_true_iff in H as [H1 H2].
+  apply (leqb_eq _ pair_eqb_eq) in H1. apply (leqb_eq _ fobs_eqb_eq) in H2. apply (leqb_eq _ pair_eqb_eq) in H3. subst. reflexivity.
+Qed.
+Theorem agree_reflect (c : bcase) : agree c = true -> model_out c = (bo_rets c, bo_api_panic c, bo_enc c).
+Proof.
+  unfold agree. destruct (model_out c) as [[rets p] e]. intros H.
+  apply andb_true_iff in H as [H H3]. apply andb_true_iff in H as [H1 H2].
+  apply (leqb_eq _ optn_eqb_eq) in H1. apply eqb_prop in H2.
+  assert (E : e = bo_enc c).
+  { destruct e as [x|], (bo_enc c) as [y|]; cbn in H3; try discriminate; [apply bobs_eqb_eq in H3; subst|]; reflexivity. }
+  subst. reflexivity.
+Qed.
+
+(* checker soundness for the first build of a history, on the *observed* output: if the implementation agrees with the
+   model on a case whose history starts with a build and never reuses its fingerprint, then wherever the observed
+   output has a function carrying that fingerprint at a live position of the index space, that function has exactly
+   the requested parameter and result types, locals, and instruction sequence followed by one end *)
+Theorem observed_built_function (c : bcase) o fp params results locs body name h :
+  agree c = true -> bo_enc c = Some o -> bh_ops c = BBuild fp params results locs body name :: h ->
+  (forall x, In x h -> fp_of x <> Some fp) ->
+  exists s2 lf mf, index_space (m_f (b_m s2)) = Ok (lf, mf) /\
+  forall k it, nth_error (map snd (filter (fun ki => is_local (snd ki) && negb (it_del (snd ki))) (number_items 0 lf))) k = Some it ->
+    it_fp it = fp ->
+    exists g nm, nth_error (bo_funcs o) k = Some (mkFO fp params results g (body ++ [end_tok]) nm) /\ expand g = locs.
+Proof.
+  intros Ha Ho Hh Hfresh. apply agree_reflect in Ha. unfold model_out in Ha. rewrite Hh in Ha. cbn [brun] in Ha.
+  destruct (bstep (bbase c) (BBuild fp params results locs body name)) as [[s1 r]|] eqn:E1.
+  - destruct (brun s1 h ([] ++ [r])) as [[s2 rets] p] eqn:E2. destruct p; inversion Ha as [[H1 H2 H3]]; [rewrite Ho in H3; discriminate|].
+    rewrite Ho in H3. destruct (bencode s2 (bh_sites c)) as [e|] eqn:E3; inversion H3; subst e.
+    destruct (built_function_emitted _ _ _ _ _ _ _ _ _ _ _ _ _ _ _ (base_tinv c) E1 E2 Hfresh E3) as (lf & mf & Hix & Hall).
+    exists s2, lf, mf. split; [exact Hix|exact Hall].
+  - inversion Ha as [[H1 H2 H3]]. rewrite Ho in H3. discriminate.
+Qed.
